@@ -50,7 +50,7 @@ class KernelOracle:
             p.trace.clear()
 
     def probes(self):
-        return [p for p in (self.refs.get("p_logd"), self.refs.get("p_forward")) if p is not None]
+        return [p for p in (self.refs.get("p_logd"), self.refs.get("p_forward"), self.refs.get("p_grad")) if p is not None]
 
     def sig(self, oracle_extra=None, **k):
         d = {"engine": "mhkernel", "iface": self.iface, "kind": self.kind}
@@ -222,6 +222,12 @@ class KernelOracle:
             if fk is not None or not np.isfinite(lxs):
                 if fk is None:
                     self.ctx.hit("proposal_outside_support")
+                return None, xs, True
+            pgr = self.refs.get("p_grad")
+            if pgr is not None and pgr.trace and pgr.trace[-1][2] is not None and bit_equal(as_vec(pgr.trace[-1][0][0]), xs):
+                # the gradient at the proposal is not a number: the reverse proposal density, hence the MH ratio, is undefined
+                # and the proposal must not be accepted (the chain could never leave such a point again)
+                self.ctx.hit("proposal_with_nan_gradient")
                 return None, xs, True
             gs = self.refs["ref_grad"](xs)
             q_fwd = -0.5 * float(np.sum((xs - (x + c * g)) ** 2)) / eps      # q(x*|x)
@@ -423,7 +429,7 @@ def gen_case(r, tier):
         sc["vector_step"] = True
     sc["iface"] = iface
     sc["fault_rate"] = r.choice([0.0, 0.0, 0.05, 0.15])
-    sc["fault_kind"] = r.choice(["nan", "-inf"])
+    sc["fault_kind"] = r.choice(["nan", "-inf", "grad_nan"] if kind == "MALA" else ["nan", "-inf"])
     return {"scenario": sc, "ops": ops}
 
 
@@ -441,7 +447,7 @@ class MHRun:
         if FAMILY[self.kind] == "pcn":
             m, C, Cinv = _prior_moments(self.sc["target"])
             refs.update(prior_mean=m, prior_C=C, prior_Cinv=Cinv)
-        for p in (refs["p_logd"], refs["p_forward"]):
+        for p in (refs["p_logd"], refs["p_forward"], refs.get("p_grad")):
             if p is not None:
                 p.trace = []
         return refs
@@ -458,6 +464,8 @@ class MHRun:
             x = as_vec(args[0])
             if oracle.x_run is not None and bit_equal(x, oracle.x_run):
                 return None
+            if kind == "grad_nan":
+                return None                      # (the log-density stays finite; only the gradient misbehaves, see below)
             return kind if ctx.sched.random() < rate else None
         probe.fault_pred = pred
         # outside the support the gradient is not finite either: when the log-density evaluation at a point was
@@ -468,6 +476,9 @@ class MHRun:
                 tr = probe.trace
                 if tr and tr[-1][2] is not None and bit_equal(tr[-1][0][0], args[0]):
                     return "nan"
+                if kind == "grad_nan" and oracle.active and oracle.x_run is not None and \
+                        not bit_equal(as_vec(args[0]), oracle.x_run) and ctx.sched.random() < rate:
+                    return "nan"                 # finite log-density, gradient not a number (edge of a support, overflow)
                 return None
             pg.fault_pred = gpred
 
